@@ -44,6 +44,10 @@ impl Worksheet {
 //@end
 //@stub base/src/worksheet.rs Worksheet::column_cell_references
 //@end
+//@stub base/src/worksheet.rs Worksheet::set_cell_style
+//@end
+//@stub base/src/worksheet.rs Worksheet::remove_cell
+//@end
 // the descriptor written at `column` must be the one of the column that moves there
 //@stub base/src/worksheet.rs Worksheet::set_column_width_and_style
     requires exists|src: int| #![trigger aw(src)] column == move1(src, g_column(), g_delta()) && width == aw(src) && hidden == hd(src) && style == st(src)
@@ -69,6 +73,20 @@ pub fn move_cell_recreate(&mut self, sheet: u32, target_row: i32, target_column:
     requires array.is_some() ==> array.unwrap() == (g_arr_w(), g_arr_h())
 {
 //@fragment base/src/actions.rs Model::move_cell `if let Some((` .. `self.set_user_input(sheet, target_row, target_column, formula_or_value)?;`
+//@end
+    Ok(())
+}
+
+    // the tail of move_cell: the source cell's style is ALWAYS written at the target (a style-0 cell must not inherit the row or
+    // column style of its new position), then the source cell is removed
+pub fn move_cell_tail(&mut self, sheet: u32, source_row: i32, source_column: i32, target_row: i32, target_column: i32, style: i32) -> (r: Result<(), String>)
+{
+    let ghost mut styled: bool = false;
+//@fragment#2 base/src/actions.rs Model::move_cell `let worksheet = self.workbook.worksheet_mut(sheet)?;` .. `worksheet.remove_cell(source_row, source_column)?;`
+//@after `worksheet.set_cell_style(target_row, target_column, style)?;`
+        proof { styled = true; }
+//@before `worksheet.remove_cell(source_row, source_column)?;`
+        assert(styled);   // the style copy happened on this path
 //@end
     Ok(())
 }
